@@ -20,22 +20,29 @@ from vf.props.valuecommon import Guard, build_case, check_acyclic, eval_output, 
 LEVEL = "exploration"
 RULE = (
     "Hypothesis recipes: 1-3 variables (scalar, vector, matrix valued; later variables may be defined through earlier "
-    "ones) and an expression f over the full grammar that uses them (several times, indexed, inside list/component "
+    "ones, or wrap grad/div/dx of composite expressions) and an expression f over the full grammar that uses them (several times, indexed, inside list/component "
     "tensors and conditionals); diff w.r.t. a variable or a coefficient, optionally repeated. non-trivial = the "
     "oracle derivative is not identically zero and f contains a nonlinear operator; distinct = distinct recipe."
 )
 ASSUMPTIONS = [
     "real smooth data; ill-conditioned points are discarded",
     "spatial derivatives of the differentiation variable are not generated (ufl defines d(grad v)/dv only through "
-    "its own convention); spatial derivatives of other fields are",
+    "its own convention); spatial derivatives of other fields are, inside variable definitions (then no diff w.r.t. a coefficient)",
 ]
 BUDGET = {"quick": {"examples": 4000, "seconds": 60}, "thorough": {"examples": 120000, "seconds": 1200}}
 
+LABEL_FLOORS = {"quick": {"target-wraps-spatial-derivative": 150}}
 PROFILE = Profile(
     ops={"arith", "math", "cond", "index", "tensor", "compound", "pow", "abs", "var", "sign", "math2", "powx"},
     leaves={"coef", "const", "lit", "zero", "eye"},
     max_rank=2, elements="lagrange", manifolds=False, weights={"var": 1},
 )
+DPROFILE = Profile(
+    ops={"arith", "math", "index", "tensor", "compound", "deriv", "pow"},
+    leaves={"coef", "const", "lit", "x"},
+    max_rank=2, elements="lagrange", manifolds=False, weights={"grad": 6, "dxk": 4, "divv": 4},
+)
+SPATIAL = {"grad", "div", "curl", "dx", "nabla_grad", "nabla_div"}
 NONLINEAR = {"mul", "pow", "div", "fn", "cond", "abs", "inner", "dot", "outer", "det", "inv", "cofac", "atan2",
              "max", "min", "sign", "cross"}
 
@@ -46,9 +53,16 @@ def cases(draw, tier):
     G = Gen(draw, world, PROFILE)
     g = world["gdim"]
     nv = draw(st.integers(1, 3))
+    # variables may wrap spatial derivatives of composite expressions of the *other* fields (never of a variable and
+    # never differentiated w.r.t. a coefficient below): derivative expansion rewrites what such a variable wraps
+    Gd = Gen(draw, world, DPROFILE)
+    spatial = False
     for k in range(nv):
         sh = draw(st.sampled_from([(), (), (g,), (g, g)]))
-        if k > 0 and draw(st.integers(0, 3)) == 0:
+        if draw(st.integers(0, 3)) == 0:
+            spatial = True
+            G.new_var(Gd.expr(sh, (), draw(st.integers(1, 2))), sh)
+        elif k > 0 and draw(st.integers(0, 3)) == 0:
             # directly nested variable(variable(e)): a distinct variable with the same value
             j = draw(st.integers(0, k - 1))
             G.new_var(["var", j], G.var_shapes[j])
@@ -60,7 +74,7 @@ def cases(draw, tier):
     diffs = []
     nd = draw(st.sampled_from([1, 1, 1, 2]))
     for _ in range(nd):
-        if draw(st.integers(0, 4)) == 0:
+        if not spatial and draw(st.integers(0, 4)) == 0:
             diffs.append({"kind": "coef", "field": draw(st.sampled_from(["f0", "w0", "m0"]))})
         else:
             diffs.append({"kind": "var", "k": draw(st.integers(0, len(G.vars) - 1))})
@@ -161,4 +175,6 @@ def check_case(case):
     ops = ops_in(case["expr"]) | set().union(*[ops_in(v) for v in case["vars"]])
     labels = ["repeated" if nt > 1 else "single"] + ["wrt:" + d["kind"] for d in case["diffs"]]
     labels += ["target_rank:%d" % len(targets[0].ufl_shape)]
+    if any(ops_in(case["vars"][d["k"]]) & SPATIAL for d in case["diffs"] if d["kind"] == "var"):
+        labels.append("target-wraps-spatial-derivative")
     return {"nontrivial": nonzero and bool(ops & NONLINEAR), "labels": labels}
